@@ -49,6 +49,11 @@ Step(e) ==
          THEN RejectItems(e, <<[diag |-> "partial-read-differs-from-full-read", got |-> e.vals, exp |-> ExpectedVals(cfg.dims, cfg.wdims, e.sel), resized |-> cfg.wdims # cfg.dims] @@ info>>) /\ UNCHANGED stats
          ELSE /\ stats' = [stats EXCEPT !.sels = @ + 1, !.valid = @ + 1, !.multichunk = @ + (IF SpansChunks(e.sel) THEN 1 ELSE 0)]
               /\ UNCHANGED <<cfg, bad, skip>>
+    [] e.op = "bigsel" ->      \* a start, count, stride or block near 2^64 (first dimension): the selection leaves every dataset
+         IF e.res = "panic" THEN RejectItems(e, <<[diag |-> "panic", msg |-> e.msg, which |-> e.which, val |-> e.val, api |-> e.api, overflow |-> TRUE]>>) /\ UNCHANGED stats
+         ELSE IF e.res = "ok"
+         THEN RejectItems(e, <<[diag |-> "invalid-selection-accepted", n |-> e.n, which |-> e.which, val |-> e.val, api |-> e.api, overflow |-> TRUE]>>) /\ UNCHANGED stats
+         ELSE /\ stats' = [stats EXCEPT !.sels = @ + 1, !.invalid = @ + 1] /\ UNCHANGED <<cfg, bad, skip>>
     [] e.op = "full" ->
          IF e.res = "ok" /\ e.identity THEN UNCHANGED <<cfg, bad, skip, stats>>
          ELSE /\ PrintT(<<"BAD", ToJson([case |-> e.case, at |-> l, cfg |-> cfg, items |-> <<[diag |-> "full-read-wrong", res |-> e.res, resized |-> cfg.wdims # cfg.dims]>>])>>)
